@@ -60,6 +60,8 @@ type Fault struct {
 	Kind string `json:"kind"` // crash | restart | leave | partition | heal | reset | loss-on | loss-off
 	Node int    `json:"node,omitempty"`
 	Side []int  `json:"side,omitempty"` // partition: these nodes on one side, all others on the other
+	// restart: the node comes back on a new address (same node id): its old address answers nobody any more
+	NewAddr bool `json:"newAddr,omitempty"`
 }
 
 // Config is one complete scenario.
@@ -132,6 +134,7 @@ type Result struct {
 	AskFail  int        `json:"askFailures"`
 	Handled  int        `json:"handled"`
 	FaultLog []string   `json:"faultLog,omitempty"`
+	Addrs    [][]string `json:"addrs"` // per node: every address it has used, the current one last
 }
 
 // Events at the same instant are ordered by a key that does not depend on the order in which they were
@@ -722,8 +725,21 @@ func (s *sim) applyFault(f Fault) {
 			if n.alive {
 				s.kill(n, "crash")
 			}
+			if f.NewAddr {
+				old := s.cfg.Nodes[f.Node].Addr
+				host, port, _ := strings.Cut(old, ":")
+				var p int
+				_, _ = fmt.Sscanf(port, "%d", &p)
+				fresh := fmt.Sprintf("%s:%d", host, p+100)
+				delete(s.byAddr, old)
+				s.byAddr[fresh] = f.Node
+				s.cfg.Nodes[f.Node].Addr = fresh
+				s.res.Addrs[f.Node] = append(s.res.Addrs[f.Node], fresh)
+				log("restart %d on the new address %s", f.Node, fresh)
+			} else {
+				log("restart %d", f.Node)
+			}
 			s.startNode(f.Node, "restart")
-			log("restart %d", f.Node)
 		}
 	case "leave":
 		if n := s.nodes[f.Node]; n != nil && n.alive {
@@ -801,11 +817,13 @@ func (s *sim) sample() {
 
 // Run executes the scenario. It must be called inside a synctest bubble.
 func Run(cfg Config) *Result {
-	rand.Seed(cfg.RandSeed) //nolint:staticcheck // the library shuffles with the global source (GODEBUG randseednop=0 in the test binary)
+	rand.Seed(cfg.RandSeed)                          //nolint:staticcheck // the library shuffles with the global source (GODEBUG randseednop=0 in the test binary)
+	cfg.Nodes = append([]NodeCfg(nil), cfg.Nodes...) // a restart on a new address rewrites the node's configuration
 	s := &sim{cfg: cfg, start: time.Now(), nodes: make([]*node, len(cfg.Nodes)), byAddr: map[string]int{},
 		linkLast: map[[2]int]time.Time{}, linkGen: map[[2]int]int{}, linkCnt: map[[2]int]int{}, asks: map[int]*ask{}, res: &Result{}}
 	for i, n := range cfg.Nodes {
 		s.byAddr[n.Addr] = i
+		s.res.Addrs = append(s.res.Addrs, []string{n.Addr})
 	}
 	for i, n := range cfg.Nodes {
 		i := i
